@@ -436,6 +436,13 @@ def _opt_closure(ex, p, m, a, func, fr):
         return [dict(cond=d == 0, value=opt_none()), dict(cond=d != 0, inline=(body, [cl, x], lambda ex_, q, r: opt_some(r)))]
     if op == 'and_then':
         return [dict(cond=d == 0, value=opt_none()), dict(cond=d != 0, inline=(body, [cl, x], None))]
+    if op == 'map_or':
+        # map_or(default, f)
+        return [dict(cond=d == 0, value=a[1]), dict(cond=d != 0, inline=(body, [cl, x], None))]
+    if op == 'filter':
+        xr = x if isinstance(x, Ref) else p.alloc(x, 'optval')
+        return [dict(cond=d == 0, value=opt_none()),
+                dict(cond=d != 0, inline=(body, [cl, xr], lambda ex_, q, r: Enum(z3.If(r[0], bv64(1), bv64(0)), {'Some': (x,)}, 'Option')))]
     return None
 
 
